@@ -32,14 +32,30 @@ fn scan(tree: &Tree) -> Result<BTreeMap<Vec<u8>, Vec<u8>>, String> {
 	Ok(m)
 }
 
+fn copy_dir(from: &std::path::Path, to: &std::path::Path) {
+	std::fs::create_dir_all(to).unwrap();
+	for e in std::fs::read_dir(from).unwrap().flatten() {
+		let (p, q) = (e.path(), to.join(e.file_name()));
+		if p.is_dir() {
+			copy_dir(&p, &q);
+		} else {
+			let _ = std::fs::copy(&p, &q);
+		}
+	}
+}
+
 fn run_case(memtable: usize, n: usize, vsize: usize, vlog: bool) -> Result<(bool, Vec<serde_json::Value>), String> {
 	let mut viol = Vec::new();
 	let dir = verif_harness::scratch_dir("size");
 	let rt = verif_harness::rt();
 	let _g = rt.enter();
-	let mut opts = Options::new().with_path(dir.path().to_path_buf()).with_max_memtable_size(memtable).with_enable_vlog(vlog);
-	opts.level0_max_files = 64;
-	let opts = opts.with_l0_stall_threshold(64).with_memtable_stall_threshold(64);
+	// fresh Options per store: a clone shares the block cache, and two stores with the same table ids must not
+	let mk_opts = |path: &std::path::Path| {
+		let mut opts = Options::new().with_path(path.to_path_buf()).with_max_memtable_size(memtable).with_enable_vlog(vlog);
+		opts.level0_max_files = 64;
+		opts.with_l0_stall_threshold(64).with_memtable_stall_threshold(64)
+	};
+	let opts = mk_opts(dir.path());
 	let tree = TreeBuilder::with_options(opts.clone()).build().map_err(|e| format!("open: {e}"))?;
 	let mut model: BTreeMap<Vec<u8>, Vec<u8>> = BTreeMap::new();
 	// earlier small commits
@@ -98,10 +114,28 @@ fn run_case(memtable: usize, n: usize, vsize: usize, vlog: bool) -> Result<(bool
 		}
 	}
 	check(&tree, "after_more_commits", &model, &mut viol);
+	// process crash at this instant: the files as they are now, opened by recovery (the commit log is replayed)
+	{
+		let img = verif_harness::scratch_dir("sizeimg");
+		copy_dir(dir.path(), img.path());
+		match TreeBuilder::with_options(mk_opts(img.path())).build() {
+			Ok(t3) => {
+				let before = viol.len();
+				check(&t3, "after_crash", &model, &mut viol);
+				for v in viol.iter_mut().skip(before) {
+					if v["kind"] == "failed_commit_visible" {
+						v["kind"] = json!("failed_commit_replayed_after_reopen");
+					}
+				}
+				let _ = rt.block_on(t3.close());
+			}
+			Err(e) => viol.push(json!({"kind":"reopen_refused","round":"crash","error":e.to_string(),"big_commit_ok":ok})),
+		}
+	}
 	rt.block_on(tree.close()).map_err(|e| format!("close: {e}"))?;
 	drop(tree);
 	for round in 0..2 {
-		match TreeBuilder::with_options(opts.clone()).build() {
+		match TreeBuilder::with_options(mk_opts(dir.path())).build() {
 			Ok(t2) => {
 				check(&t2, if round == 0 { "after_reopen" } else { "after_second_reopen" }, &model, &mut viol);
 				let _ = rt.block_on(t2.close());
@@ -124,6 +158,7 @@ fn main() {
 	let seed: u64 = argval("--seed").map(|s| s.parse().unwrap()).unwrap_or(1);
 	let cases: usize = argval("--cases").map(|s| s.parse().unwrap()).unwrap_or(60);
 	let one: Option<String> = argval("--case");
+	let one_is_none = one.is_none();
 	verif_harness::quiet_panics();
 	let mut rng = StdRng::seed_from_u64(seed);
 	let mut sum = Summary::new("commit_size_sweep");
@@ -146,6 +181,28 @@ fn main() {
 			let vsize = per.saturating_sub(220).max(1);
 			plan.push((memtable, n, vsize, i % 5 == 0));
 		}
+	}
+	if one_is_none && !args.iter().any(|a| a == "--no-boundary") {
+		// the acceptance boundary, found by bisection on the real engine, then every size in a band around it: the
+		// sizes the engine accepts for logging but cannot apply (or the other way round) live within a few hundred bytes
+		let mut band = 0u64;
+		for (memtable, n) in [(32 * 1024usize, 1usize), (64 * 1024, 1), (64 * 1024, 3), (32 * 1024, 7)] {
+			let (mut lo, mut hi) = (1usize, 2 * memtable / n);
+			while hi - lo > 1 {
+				let mid = (lo + hi) / 2;
+				match verif_harness::catch(|| run_case(memtable, n, mid, false)) {
+					Ok(Ok((true, _))) => lo = mid,
+					_ => hi = mid,
+				}
+			}
+			let step = (24 / n).max(1);
+			let from = lo.saturating_sub(6 * step);
+			for k in 0..48 {
+				plan.push((memtable, n, from + k * step, false));
+				band += 1;
+			}
+		}
+		sum.extra.insert("boundary_band_cases".into(), json!(band));
 	}
 	let (mut oks, mut errs) = (0u64, 0u64);
 	for (memtable, n, vsize, vlog) in plan {
